@@ -43,18 +43,19 @@ type Op struct {
 	Ready func() []int
 	// recv/send bookkeeping used by channel rendezvous
 	ch      *chanState
-	recvs   []*chanState // channels this op could receive from (plain recv or select recv cases)
-	matched *chanState   // set by a sender that committed a handoff to this op
+	recvs   []*chanState               // channels this op could receive from (plain recv or select recv cases)
+	matched *chanState                 // set by a sender that committed a handoff to this op
 	sends   map[*chanState]interface{} // unbuffered channels this op offers a value on
-	pulled  *chanState   // set by a receiver that took the offered value
+	pulled  *chanState                 // set by a receiver that took the offered value
 }
 
 type Point struct {
-	Key         uint64   // happens-before key before the choice
-	Alts        []string // alternative ids in canonical order ("g:<name>" or "case:<i>")
-	Chosen      int
-	Preemptive  []bool // whether taking alternative i is a preemption
+	Key            uint64   // happens-before key before the choice
+	Alts           []string // alternative ids in canonical order ("g:<name>" or "case:<i>")
+	Chosen         int
+	Preemptive     []bool // whether taking alternative i is a preemption
 	PreemptsBefore int
+	Epoch          int // number of quiescent points (only one goroutine alive) passed before this choice
 }
 
 type Event struct {
@@ -81,16 +82,17 @@ type Exec struct {
 	key     uint64
 	objHash map[string]uint64
 	// side tables
-	chans   map[uintptr]*chanState
-	objs    map[interface{}]string
-	onFresh func(e *Exec, p *Point) bool // returns false to prune
-	preempts int
-	Trace    []string
-	traceOn  bool
-	DeclinedStop int // selects that declined a ready stop/cancel case (see Select)
-	Deadlocked bool
-	Blocked  []string // at deadlock: goroutine name + pending op
-	mu sync.Mutex
+	chans            map[uintptr]*chanState
+	objs             map[interface{}]string
+	onFresh          func(e *Exec, p *Point) bool // returns false to prune
+	preempts         int
+	Trace            []string
+	traceOn          bool
+	epoch, lastAlive int
+	DeclinedStop     int // selects that declined a ready stop/cancel case (see Select)
+	Deadlocked       bool
+	Blocked          []string // at deadlock: goroutine name + pending op
+	mu               sync.Mutex
 }
 
 var (
@@ -292,6 +294,18 @@ func run(body func(), prefix []int, horizon int, onFresh func(e *Exec, p *Point)
 			}
 			return e
 		}
+		// epoch bookkeeping: a phase ends when the program becomes quiescent
+		// (a single goroutine left alive after there had been several)
+		alive := 0
+		for _, g := range e.gs {
+			if !g.done {
+				alive++
+			}
+		}
+		if alive == 1 && e.lastAlive > 1 {
+			e.epoch++
+		}
+		e.lastAlive = alive
 		e.steps++
 		if e.steps > e.horizon {
 			e.Events = append(e.Events, Event{Kind: "horizon", Msg: fmt.Sprintf("step horizon %d reached", e.horizon)})
@@ -302,7 +316,7 @@ func run(body func(), prefix []int, horizon int, onFresh func(e *Exec, p *Point)
 		if len(en) == 1 {
 			g = en[0]
 		} else {
-			p := Point{Key: e.key, PreemptsBefore: e.preempts}
+			p := Point{Key: e.key, PreemptsBefore: e.preempts, Epoch: e.epoch}
 			lastEnabled := en[0] == e.last
 			for i, x := range en {
 				p.Alts = append(p.Alts, "g:"+x.name)
@@ -325,7 +339,7 @@ func run(body func(), prefix []int, horizon int, onFresh func(e *Exec, p *Point)
 			if len(ready) == 1 {
 				g.selIdx = ready[0]
 			} else if len(ready) > 1 {
-				p := Point{Key: e.key ^ mix("sel:"+g.name, 1), PreemptsBefore: e.preempts}
+				p := Point{Key: e.key ^ mix("sel:"+g.name, 1), PreemptsBefore: e.preempts, Epoch: e.epoch}
 				for _, r := range ready {
 					p.Alts = append(p.Alts, fmt.Sprintf("case:%s:%d", g.name, r))
 					p.Preemptive = append(p.Preemptive, false)
@@ -351,7 +365,19 @@ type Options struct {
 	MaxPreemptions int // iterate bounds 0..MaxPreemptions; <0 = unbounded only
 	Horizon        int
 	MaxExecutions  int64 // cap (0 = none); hitting it makes the result non-exhaustive
-	NoCache        bool
+	// SinglePhase confines the non-default choices of one execution to a single
+	// phase (the window between two quiescent points, where only one goroutine
+	// is alive): every interleaving of each phase is explored with all other
+	// phases on the default schedule. The number of executions is then the sum,
+	// not the product, of the phases' interleavings.
+	SinglePhase bool
+	// AllDeviations makes every non-default choice (not only a preemption: also
+	// the choice among several runnable goroutines after the running one blocked
+	// or ended, and the choice among ready select cases) cost one unit of the
+	// bound: bound k then covers every execution that departs from the default
+	// schedule at most k times (deviation bounding).
+	AllDeviations bool
+	NoCache       bool
 }
 
 type Result struct {
@@ -366,6 +392,8 @@ type Result struct {
 	Outcomes       map[string]int64
 	Failures       []Failure
 	MaxPoints      int
+	PhaseCuts      int64 // alternatives not taken because of SinglePhase
+	Phases         int   // quiescent points seen in the longest execution
 }
 
 type Failure struct {
@@ -404,7 +432,49 @@ func Explore(body func(), check Check, o Options) *Result {
 	}
 	seenFail := map[string]bool{}
 	for _, bound := range bounds {
-		cache := map[cacheKey]int{}
+		type cacheVal struct {
+			budget  int
+			allowed bool // explored in a context where deviations at this point's phase were allowed
+		}
+		cache := map[cacheKey]cacheVal{}
+		covered := func(ck cacheKey, budget int, allowed bool) bool {
+			v, ok := cache[ck]
+			return ok && v.budget >= budget && (v.allowed || !allowed)
+		}
+		mark := func(ck cacheKey, budget int, allowed bool) {
+			if v, ok := cache[ck]; ok {
+				if v.budget > budget {
+					budget = v.budget
+				}
+				allowed = allowed || v.allowed
+			}
+			cache[ck] = cacheVal{budget, allowed}
+		}
+		// devAllowed: may an execution with these choices so far still deviate in phase epoch?
+		devAllowed := func(choices []int, points []Point, epoch int) bool {
+			if !o.SinglePhase {
+				return true
+			}
+			for j := range choices {
+				if choices[j] != 0 {
+					return points[j].Epoch == epoch
+				}
+			}
+			return true
+		}
+		// spent: units of the bound used by the first n choices
+		spent := func(choices []int, n int, p *Point) int {
+			if !o.AllDeviations {
+				return p.PreemptsBefore
+			}
+			k := 0
+			for j := 0; j < n && j < len(choices); j++ {
+				if choices[j] != 0 {
+					k++
+				}
+			}
+			return k
+		}
 		boundHit := false
 		var explore func(prefix []int) bool
 		explore = func(prefix []int) bool {
@@ -417,12 +487,13 @@ func Explore(body func(), check Check, o Options) *Result {
 				if o.NoCache {
 					return true
 				}
-				budget := bound - p.PreemptsBefore // default alternative 0 is never preemptive
+				budget := bound - spent(e.Choices, len(e.Choices), p) // default alternative 0 is never preemptive
 				ck := cacheKey{p.Key, p.Alts[0]}
-				if b, ok := cache[ck]; ok && b >= budget {
+				allowed := devAllowed(e.Choices, e.Points, p.Epoch)
+				if covered(ck, budget, allowed) {
 					return false
 				}
-				cache[ck] = budget
+				mark(ck, budget, allowed)
 				return true
 			}
 			e := run(body, prefix, o.Horizon, onFresh, false)
@@ -430,6 +501,9 @@ func Explore(body func(), check Check, o Options) *Result {
 			res.Transitions += int64(e.steps)
 			if len(e.Points) > res.MaxPoints {
 				res.MaxPoints = len(e.Points)
+			}
+			if e.epoch+1 > res.Phases {
+				res.Phases = e.epoch + 1
 			}
 			if e.pruned {
 				res.Pruned++
@@ -454,20 +528,34 @@ func Explore(body func(), check Check, o Options) *Result {
 						continue
 					}
 					cost := 0
-					if p.Preemptive[alt] {
+					if p.Preemptive[alt] || o.AllDeviations {
 						cost = 1
 					}
-					budget := bound - p.PreemptsBefore - cost
+					if o.SinglePhase {
+						// the phase of the first deviation in the prefix
+						dev := -1
+						for j := 0; j < i; j++ {
+							if e.Choices[j] != 0 {
+								dev = e.Points[j].Epoch
+								break
+							}
+						}
+						if dev >= 0 && dev != p.Epoch {
+							res.PhaseCuts++
+							continue
+						}
+					}
+					budget := bound - spent(e.Choices, i, p) - cost
 					if budget < 0 {
 						boundHit = true
 						continue
 					}
 					if !o.NoCache {
 						ck := cacheKey{p.Key, p.Alts[alt]}
-						if b, ok := cache[ck]; ok && b >= budget {
+						if covered(ck, budget, true) {
 							continue
 						}
-						cache[ck] = budget
+						mark(ck, budget, true)
 					}
 					next := append(append([]int{}, e.Choices[:i]...), alt)
 					if !explore(next) {
